@@ -4,4 +4,4 @@ from jobs_lib import vf,blk,other
 def jobs(tier):
     return vf(tier,'C08')+other('C02',tier,lambda j:j.name.startswith('K-synth'))[:1]+blk(tier,lambda j:j.name.startswith('blockin-step'))[:2]
 CLAIM={'text':'Bounded model checking of ov_pcm_seek_page (bisection over an abstract page table: lands at or before the target on the last page strictly before it, in the right link) and ov_pcm_seek (exact landing, per-link block sizes, the decoder is always repositioned); the packets ov_pcm_seek skips are tracked by vorbis_synthesis_trackonly with the sequence number of the packet itself (K-synth) so that the accumulator step (blockin-step) keeps its sample count across the hand-over from skipped to decoded packets; _fetch_and_process_packet sets positions from granule positions in full-rate units (F-fetch).',
- 'note':'Trusted: abstract page table (<=3 pages per link, file < 64 KiB: interpolation branch dead), 2 links, packets without granule positions in pcm-exact. Time seeks, argument rejection leaving the handle bit-identical, raw seek are not yet covered.'}
+ 'note':'(Thorough tier only: time-seek / time-seek-page, the time-to-sample conversion of ov_time_seek[_page] on a concrete 3-link table with the requested time any double; no verdict inside the quick budget.) Trusted: abstract page table (<=3 pages per link, file < 64 KiB: interpolation branch dead), 2 links, packets without granule positions in pcm-exact. Time seeks, argument rejection leaving the handle bit-identical, raw seek are not yet covered.'}
